@@ -9,10 +9,11 @@ use crate::format::*;
 use crate::resolver::{self, Conclusion};
 use wire::Toks;
 
-const SITES: [&str; 14] = [
+const SITES: [&str; 18] = [
     "none", "exemption", "policy-criteria", "policy-dev-criteria", "policy-dependency-criteria", "implies",
     "local-audit", "local-wildcard", "trusted", "lock-audit", "lock-wildcard", "criteria-cycle",
-    "criteria-builtin-redefined", "wildcard-end-date",
+    "criteria-builtin-redefined", "wildcard-end-date", "criteria-map-target", "criteria-too-many",
+    "lock-stale-exclude", "lock-import-set",
 ];
 
 fn bad() -> crate::serialization::spanned::Spanned<String> {
@@ -77,6 +78,67 @@ fn inject(rng: &mut Rng, w: &mut gen::GWorld, site: &str) -> bool {
             );
             true
         }
+        "lock-stale-exclude" => {
+            // one import's `exclude` names a crate its imports.lock entry still has records for;
+            // the other imports get exclude lists that are consistent with the lock
+            let names: Vec<String> = w.config.imports.keys().cloned().collect();
+            let mut cands: Vec<(String, String)> = Vec::new();
+            for n in &names {
+                if let Some(f) = w.imports.audits.get(n) {
+                    // (the serialiser drops empty tables)
+                    for c in f.audits.iter().filter(|(_, l)| !l.is_empty()).map(|(k, _)| k).chain(f.wildcard_audits.iter().filter(|(_, l)| !l.is_empty()).map(|(k, _)| k)) {
+                        cands.push((n.clone(), c.clone()));
+                    }
+                }
+            }
+            if cands.is_empty() {
+                return false;
+            }
+            let (imp, krate) = cands[rng.below(cands.len())].clone();
+            let all_crates: Vec<String> = w.graph.pkgs.iter().map(|p| p.name.clone()).collect();
+            for n in &names {
+                let mentioned: Vec<String> = w.imports.audits.get(n).map(|f| f.audits.keys().chain(f.wildcard_audits.keys()).cloned().collect()).unwrap_or_default();
+                let e = &mut w.config.imports.get_mut(n).unwrap().exclude;
+                if *n == imp {
+                    e.push(krate.clone());
+                } else if let Some(c) = all_crates.iter().find(|c| !mentioned.contains(c)) {
+                    e.push(c.clone());
+                }
+                e.sort();
+                e.dedup();
+            }
+            true
+        }
+        "lock-import-set" => {
+            // config.toml and imports.lock disagree about the set of imports
+            if rng.chance(1, 2) {
+                w.config.imports.insert("peer-zz".into(), RemoteImport { url: vec!["https://peer-zz.example/audits.toml".into()], ..Default::default() });
+                true
+            } else if let Some(k) = w.config.imports.keys().next().cloned() {
+                w.config.imports.remove(&k);
+                true
+            } else {
+                false
+            }
+        }
+        "criteria-map-target" => w
+            .config
+            .imports
+            .values_mut()
+            .next()
+            .map(|i| {
+                i.criteria_map.insert(gen::sp(if rng.chance(1, 2) { SAFE_TO_DEPLOY.to_owned() } else { "p-foreign".to_owned() }), vec![bad()]);
+            })
+            .is_some(),
+        "criteria-too-many" => {
+            // 62 customs is the most `CriteriaSet` can hold next to the two built-ins
+            let have = w.audits.criteria.len();
+            let want = 63 + rng.below(3);
+            for i in have..want {
+                w.audits.criteria.insert(format!("c-filler-{i:03}"), CriteriaEntry { description: Some("filler".into()), description_url: None, implies: vec![], aggregated_from: vec![] });
+            }
+            true
+        }
         "wildcard-end-date" => w
             .audits
             .wildcard_audits
@@ -115,24 +177,45 @@ fn outcome_of_real(md: &Metadata, files: &SortedMap<String, String>, locked: boo
 }
 
 pub fn check_world(r: &mut Report, d: &mut Driver, rng: &mut Rng, mut w: gen::GWorld, site: &str, tag: &str) {
-    // the on-disk store is what a locked run sees
+    // the on-disk store is what a locked run sees.  An unlocked run replaces the contents of
+    // imports.lock by freshly fetched imports before resolving, so loading + resolving the files
+    // as they are reproduces it only for a project without peers: strip them in that case.
     w.live = None;
+    let locked = site.starts_with("lock-") || site == "criteria-map-target" || rng.chance(1, 2);
+    if !locked {
+        w.config.imports.clear();
+        w.imports.audits.clear();
+    }
+    // the serialiser drops lock records of excluded crates: keep the lock written before the edit
+    let lock_before = if site == "lock-stale-exclude" {
+        guarded(|| Store::mock(w.config.clone(), w.audits.clone(), w.imports.clone()).mock_commit()).ok().map(|f| f["imports.lock"].clone())
+    } else {
+        None
+    };
     if !inject(rng, &mut w, site) {
         return;
     }
     r.evaluations += 1;
-    let locked = rng.chance(1, 2);
     let store0 = Store::mock(w.config.clone(), w.audits.clone(), w.imports.clone());
-    let files = match guarded(|| store0.mock_commit()) {
+    let mut files = match guarded(|| store0.mock_commit()) {
         Ok(f) => f,
         Err(_) => return,
     };
+    if let Some(l) = lock_before {
+        files.insert("imports.lock".to_owned(), l);
+    }
     let (real, loaded) = outcome_of_real(&w.md, &files, locked);
     r.count(&format!("site:{site}:{real}"));
     let case_txt = format!("site={site} locked={locked}\n--- audits.toml\n{}\n--- config.toml\n{}\n--- imports.lock\n{}", files["audits.toml"], files["config.toml"], files["imports.lock"]);
     r.oracle_checked += 1;
+    if std::env::var("VERIF_DEBUG").is_ok() && site == "lock-stale-exclude" && real != "refused" {
+        eprintln!("DEBUG-STALE {real}\n{case_txt}");
+    }
     if real.starts_with("panic") && r.prop == "C15" {
         r.fail("oracle", &format!("C15/panic@{site}"), format!("a store with a defect at `{site}` is accepted by the loader and then crashes: {real}"), &case_txt);
+    }
+    if site == "lock-stale-exclude" && real != "refused" && r.prop == "C07" {
+        r.fail("oracle", "C07/locked-excluded-crate-accepted", format!("imports.lock records audits of a crate the configuration excludes, and the locked load accepts it: {real}"), &case_txt);
     }
     if site != "none" {
         r.nontrivial(&case_txt);
@@ -166,6 +249,12 @@ pub fn check_world(r: &mut Report, d: &mut Driver, rng: &mut Rng, mut w: gen::GW
         t.list(&ex);
     }
     t.list(&view.imports.audits.keys().map(|k| all.iter().position(|x| x == k).unwrap()).collect::<Vec<_>>());
+    // criteria-map targets (local criteria lists)
+    let targets: Vec<Vec<usize>> = view.config.imports.values().flat_map(|i| i.criteria_map.values()).map(|l| it.crit_list(l)).collect();
+    t.n(targets.len());
+    for l in &targets {
+        t.list(l);
+    }
     let v = d.ask(&format!("validate {}", t.text()));
     let model = if v.starts_with("refused") {
         "refused".to_owned()
@@ -191,7 +280,14 @@ pub fn check_world(r: &mut Report, d: &mut Driver, rng: &mut Rng, mut w: gen::GW
 
 /// text-level damage: the loader must refuse or process, never crash
 fn text_fuzz(r: &mut Report, rng: &mut Rng, w: &gen::GWorld) {
-    let store0 = Store::mock(w.config.clone(), w.audits.clone(), w.imports.clone());
+    let locked = rng.chance(1, 2);
+    let (mut config, mut imports) = (w.config.clone(), w.imports.clone());
+    if !locked {
+        // see check_world: an unlocked run never resolves against imports.lock as it is
+        config.imports.clear();
+        imports.audits.clear();
+    }
+    let store0 = Store::mock(config, w.audits.clone(), imports);
     let Ok(mut files) = guarded(|| store0.mock_commit()) else { return };
     let which = ["audits.toml", "config.toml", "imports.lock"][rng.below(3)];
     let text = files[which].clone();
@@ -231,7 +327,7 @@ fn text_fuzz(r: &mut Report, rng: &mut Rng, w: &gen::GWorld) {
     files.insert(which.to_owned(), damaged);
     r.evaluations += 1;
     r.oracle_checked += 1;
-    let (real, _) = outcome_of_real(&w.md, &files, rng.chance(1, 2));
+    let (real, _) = outcome_of_real(&w.md, &files, locked);
     r.count(&format!("textfuzz:{kind}:{}", real.split('@').next().unwrap()));
     if real.starts_with("panic") && r.prop == "C15" {
         // same sites as the injected defects: name the unchecked site the damage produced
@@ -242,12 +338,47 @@ fn text_fuzz(r: &mut Report, rng: &mut Rng, w: &gen::GWorld) {
     }
 }
 
+/// C07, locked mode: only the sites about imports.lock vs the configured imports
+pub fn run_lock_sites(r: &mut Report) {
+    let mut d = Driver::spawn();
+    let (shard, nshards) = shard();
+    let n = if r.thorough() { 8000 } else { 1200 } / nshards;
+    let mut rng = Rng::new(r.seed.wrapping_add(shard.wrapping_mul(2750159)) ^ 0xC07);
+    for i in 0..n {
+        let mut crng = rng.fork();
+        let cfg = gen::WorldCfg { max_pkgs: 5, max_customs: 3, violations: 1, unknown_criteria: false };
+        let w = gen::gen_world(&mut crng, &cfg);
+        let site = ["lock-stale-exclude", "lock-stale-exclude", "lock-import-set", "none"][i as usize % 4];
+        check_world(r, &mut d, &mut crng, w, site, &format!("lock#{i}"));
+    }
+    r.rule.push_str("; PLUS locked loads of generated stores whose imports.lock is stale w.r.t. an import's `exclude` list or the set of imports");
+    r.count_n("driver-requests-lock-sites", d.requests);
+}
+
 pub fn run(r: &mut Report) {
     let mut d = Driver::spawn();
     let (shard, nshards) = shard();
-    r.rule = "stores = generated worlds (locked view) with one structural defect injected at one of 13 sites (undefined criterion in exemptions / policy criteria, dev-criteria, dependency-criteria / implies / local audits / local wildcard audits / trusted / imports.lock audits and wildcard audits; implication cycle; built-in redefined; wildcard end date beyond the cap), written with the real serialiser and loaded with the real loader; plus text-level damage (truncation, deleted/duplicated line, wrong type, unknown field, renamed definition); non-trivial = a defect was injected; distinct by file contents".into();
+    r.rule = "stores = generated worlds (locked view) with one structural defect injected at one of 17 sites (imports.lock stale w.r.t. an import's `exclude` list or the set of imports (locked loads); undefined criterion in exemptions / policy criteria, dev-criteria, dependency-criteria / implies / local audits / local wildcard audits / trusted / criteria-map targets / imports.lock audits and wildcard audits (locked loads); implication cycle; built-in redefined; more than 64 criteria; wildcard end date beyond the cap); unlocked loads are of projects without peers, written with the real serialiser and loaded with the real loader; plus text-level damage (truncation, deleted/duplicated line, wrong type, unknown field, renamed definition); non-trivial = a defect was injected; distinct by file contents".into();
     let n = if r.thorough() { 24000 } else { 3000 } / nshards;
     let mut rng = Rng::new(r.seed.wrapping_add(shard.wrapping_mul(2750159)) ^ 0xC15);
+    if shard == 0 {
+        // deterministic witnesses of the known findings that need a matching publisher record
+        let publisher = CratesPublisher { version: VetVersion::parse("1.0.0").unwrap(), when: gen::date(5), user_id: 7, user_login: "u".into(), user_name: None, is_fresh_import: false };
+        let mut w = core::simple_world("1.0.0");
+        w.audits.trusted.insert("b".into(), vec![TrustEntry { criteria: vec![gen::sp(SAFE_TO_DEPLOY.to_owned())], user_id: 7, start: gen::sp(gen::date(0)), end: gen::sp(gen::date(100)), notes: None, aggregated_from: vec![] }]);
+        w.imports.publisher.insert("b".into(), vec![publisher.clone()]);
+        check_world(r, &mut d, &mut rng, w, "trusted", "corpus:C15-trusted");
+        let mut w = core::simple_world("1.0.0");
+        w.config.imports.insert("peer-a".into(), RemoteImport { url: vec!["https://peer-a.example/audits.toml".into()], ..Default::default() });
+        let mut f = AuditsFile::default();
+        f.wildcard_audits.insert("b".into(), vec![WildcardEntry { who: vec![], criteria: vec![gen::sp(SAFE_TO_DEPLOY.to_owned())], user_id: 7, start: gen::sp(gen::date(0)), end: gen::sp(gen::date(100)), renew: None, notes: None, aggregated_from: vec![], is_fresh_import: false }]);
+        f.audits.insert("b".into(), vec![AuditEntry { who: vec![], criteria: vec![gen::sp(SAFE_TO_RUN.to_owned())], kind: AuditKind::Full { version: VetVersion::parse("1.0.0").unwrap() }, importable: true, notes: None, aggregated_from: vec![], is_fresh_import: false }]);
+        w.imports.audits.insert("peer-a".into(), f);
+        w.imports.publisher.insert("b".into(), vec![publisher]);
+        let w2 = gen::GWorld { graph: w.graph.clone(), md: w.md.clone(), config: w.config.clone(), audits: w.audits.clone(), imports: w.imports.clone(), live: None };
+        check_world(r, &mut d, &mut rng, w, "lock-wildcard", "corpus:C15-lock-wildcard");
+        check_world(r, &mut d, &mut rng, w2, "lock-audit", "corpus:C15-lock-audit");
+    }
     for i in 0..n {
         let mut crng = rng.fork();
         let cfg = gen::WorldCfg { max_pkgs: 5, max_customs: 3, violations: 1, unknown_criteria: false };
